@@ -34,14 +34,20 @@ def jtx(version, ins, outs, locktime, segwit):
             "locktime": B(locktime.to_bytes(4, "little")), "segwit": bool(segwit)}
 
 
-def build(version, ins, outs, locktime, segwit):
+def build(version, ins, outs, locktime, segwit, defaults=False):
+    """defaults=True: an empty scriptSig / witness is left as the object the constructor made (what an API user gets who
+    builds inputs and fills them in later, in place), instead of being assigned explicitly"""
     from buidl.tx import Tx, TxIn, TxOut
     from buidl.script import Script
     from buidl.witness import Witness
     tins = []
     for i in ins:
-        t = TxIn(i["txid"], i["idx"], Script(list(i["script"])), i["seq"])
-        t.witness = Witness(list(i["wit"]))
+        if defaults and not i["script"]:
+            t = TxIn(i["txid"], i["idx"], sequence=i["seq"])
+        else:
+            t = TxIn(i["txid"], i["idx"], Script(list(i["script"])), i["seq"])
+        if not (defaults and not i["wit"]):
+            t.witness = Witness(list(i["wit"]))
         tins.append(t)
     touts = [TxOut(o["amount"], Script(list(o["script"]))) for o in outs]
     return Tx(version, tins, touts, locktime, segwit=segwit)
@@ -143,7 +149,14 @@ def history_events(ctx, cases, rng, tag, spec, steps):
     from buidl.script import Script
     from buidl.timelock import Sequence, Locktime
     version, ins, outs, locktime, segwit = copy.deepcopy(spec)
-    tx = build(version, ins, outs, locktime, segwit)
+    defaults = rng.random() < 0.5
+    if defaults:      # inputs that start empty and are filled in place afterwards
+        for i in ins:
+            if rng.random() < 0.7:
+                i["wit"] = []
+            if rng.random() < 0.5:
+                i["script"] = []
+    tx = build(version, ins, outs, locktime, segwit, defaults=defaults)
 
     def query(step, what):
         j = jtx(version, ins, outs, locktime, segwit)
